@@ -249,6 +249,20 @@ def labels_and_project(repo: Repo, rep, P: str):
         else:
             rep.violation(f"{P}.R2", f"{rel}:MetaModule.Mapping", norm(mp.methods["__init__"])[:160] if mp else "missing",
                           "a mapping record is (module, controller)", rel)
+    # user-controller value type is the target's per-instance type (unit-dependent ranges, nested user controllers)
+    upd = mm.nested["MappingArray"].methods.get("update_user_defined_controllers")
+    us = norm(upd) if upd else ""
+    if "user_defined_controller.value_type = controller.instance_value_type(mod)" in us:
+        rep.ok(f"{P}.R2", f"{rel}:MetaModule.MappingArray.update_user_defined_controllers",
+               "user_defined_controller.value_type = controller.instance_value_type(mod)", "target's per-instance value type")
+    else:
+        vt = [norm(n) for n in ast.walk(upd) if isinstance(n, ast.Assign) and any(norm(t).endswith(".value_type") for t in n.targets)] if upd else []
+        rep.violation(f"{P}.R2", f"{rel}:MetaModule.MappingArray.update_user_defined_controllers", "; ".join(vt) or us[:120],
+                      "a user-defined controller must take the mapped controller's instance_value_type(mod): with the class-level value_type a "
+                      "unit-dependent range or a nested MetaModule's user controller gets the wrong type and its stored value is mis-decoded",
+                      rel)
+    if "user_defined_controller.default = controller.default" in us and "mod.controller_values[controller.name]" in us:
+        rep.ok(f"{P}.R2", f"{rel}:MetaModule.MappingArray.update_user_defined_controllers", "default and current value copied from the target", nontrivial=False)
     # project back-reference
     mi = norm(repo.own_method(mm, "__init__"))
     if "self.project = project or Project()" in mi and "self.project.metamodule = self" in mi:
@@ -329,3 +343,5 @@ def shared(repo: Repo, rep, P: str):
     c10.inverse_pairs(repo, rep, P, "R4")
     c11.pack_unpack(repo, rep, P, "R5")
     c02.sibling_writers(repo, rep, P)
+    from . import c12
+    c12.pack_pairs(repo, rep, P, "R6", which=("SMII",))
